@@ -385,9 +385,9 @@ func oracleC04(c *Sexp, obs parseObs) string {
 
 func oracleC06(named bool) parseOracle {
 	return func(c *Sexp, obs parseObs) string {
-		if s := oracleC04(c, obs); s != "" {
-			return s
-		}
+		// C06 speaks about failing parses only; whether the parse SHOULD have failed is C01/C04's subject
+		// (an earlier version also applied C04's Sentence-iff oracle here and so reported D9, a C01/C04
+		// finding, as a C06 violation: a false alarm of the check, corrected)
 		if obs.perr == nil || !isSentenceRoot(c) {
 			return ""
 		}
